@@ -335,7 +335,11 @@ func (m *Module) AssignGlobalIDs() error {
 				got := n.ID()
 				return errors.Errorf("invalid global ID, expected %s, got %s", enc.GlobalID(want), enc.GlobalID(got))
 			}
-			n.SetID(id)
+			// Note, the ID is only written when it changes; other goroutines may
+			// be printing (and thus reading the ID of) an already numbered value.
+			if n.ID() != id {
+				n.SetID(id)
+			}
 			id++
 		}
 		return nil
